@@ -547,6 +547,7 @@ func initialFrame(r *hlib.Rng) (qframe.QFrame, []string) {
 func main() {
 	cfg := hlib.ParseFlags()
 	s := hlib.NewSuite(cfg, "share")
+	defer s.FinishOnPanic()
 	s.Header = "From QF Require Import Base.Prelude Base.CaseLib Model.Heap Model.HeapOps Corr.HeapCorr.\nLocal Open Scope N_scope.\n"
 	s.CaseType = "share_case"
 	s.CheckFn = "check_share"
